@@ -11,7 +11,7 @@ RULE = ("TLC: every sequence (bounded length) of tax / minimum-deposit / confirm
 def run(tier, seed, work):
     quick = tier == "quick"
     mc = [("MC_Bridge.tla", "MC_Bridge_params.cfg" if quick else "MC_Bridge_params_thorough.cfg")]
-    per, depth, nj = (3, 40, 10) if quick else (25, 50, 12)
+    per, depth, nj = (6, 40, 12) if quick else (25, 50, 12)
     groups = [("Trace_Bridge.tla", "Trace_Bridge_C20.cfg", bc.jobs("c20", seed + 2, per, depth, nj, mode="params"))]
     proofs = [verif.prove("Proofs_BridgeArith", work)]   # TLAPS: tax < value, credited amount > 0, tax <= cap, accepted tax pairs keep the rate below 100% - for every value
     return verif.run_stateful_check("C20", tier, seed, work, mc_list=mc, groups=groups, key_fn=bc.key,
